@@ -4,6 +4,7 @@ import (
 	"context"
 	"fmt"
 	"runtime"
+	"strings"
 	"sync/atomic"
 	"time"
 
@@ -185,6 +186,18 @@ func deliverBlock(ctx context.Context, run *common.Run, obs *c04obs, seed int64,
 				return
 			}
 		}
+		if c.Fault == "cancel-before-close" || c.Fault == "stop-before-close" {
+			// every announced transaction has been handed over; the manager cancels (or the peer
+			// drops) after the handler consumed the last one and before the stream ends
+			for i := 0; i < 5000 && proc.CountKind("process")+proc.CountKind("process-failed") < len(txs); i++ {
+				time.Sleep(time.Millisecond)
+			}
+			if c.Fault == "cancel-before-close" {
+				bd.Cancel(ctx)
+			} else {
+				bd.Stop(ctx)
+			}
+		}
 	}()
 	var herr error
 	pan := safe(func() { herr = bd.HandleBlock(ctx, header, announced, ch) })
@@ -320,10 +333,17 @@ func deliverBlock(ctx context.Context, run *common.Run, obs *c04obs, seed int64,
 					return
 				}
 			}
-		} else if !confirmFailed && c.Fault != "store" && c.Fault != "cancel" && c.Fault != "stop" && len(confirms) == len(relevantSeen) && herr == nil {
+		} else if !confirmFailed && c.Fault != "store" && !strings.HasPrefix(c.Fault, "cancel") && !strings.HasPrefix(c.Fault, "stop") && len(confirms) == len(relevantSeen) && herr == nil {
 			viol("relevant-txids-recorded-once-after-confirmations", "success-without-append", "")
 			return
 		}
+	}
+	// effects are all-or-nothing: coinbase / confirmations / the txid record belong together, so a
+	// cancellation (or peer drop) either comes in time to prevent all of them or none
+	if (strings.HasPrefix(c.Fault, "cancel") || strings.HasPrefix(c.Fault, "stop")) && c.Corruption == "" && (len(coinbase) > 0 || len(confirms) > 0) && appends != 1 {
+		viol("confirmed-coinbase-processed-and-txids-recorded-together", "effects-without-txid-record/"+c.Fault,
+			fmt.Sprintf("%d coinbase and %d confirm calls were made but the block's txids were recorded %d times (completion %v)", len(coinbase), len(confirms), appends, completion))
+		return
 	}
 	fullSuccess := verified && appends == 1
 	if c.Corruption == "" && c.Fault == "" {
@@ -333,7 +353,7 @@ func deliverBlock(ctx context.Context, run *common.Run, obs *c04obs, seed int64,
 			return
 		}
 	}
-	if !fullSuccess && completion == nil && c.Fault != "cancel" && c.Fault != "stop" {
+	if !fullSuccess && completion == nil && !strings.HasPrefix(c.Fault, "cancel") && !strings.HasPrefix(c.Fault, "stop") {
 		viol("completion-value-reports-failure", "nil-completion-without-full-processing/"+c.Corruption+"/"+c.Fault,
 			fmt.Sprintf("Run returned nil although the block was not fully processed (%s, appends=%d)", what, appends))
 	}
@@ -369,6 +389,8 @@ func c04Cases(tier string, seed int64) []blockCase {
 				out = append(out, blockCase{N: n, Relevant: rel, Corruption: cor})
 			}
 			out = append(out, blockCase{N: n, Relevant: rel, Fault: "coinbase", FaultAt: 1})
+			out = append(out, blockCase{N: n, Relevant: rel, Fault: "cancel-before-close"})
+			out = append(out, blockCase{N: n, Relevant: rel, Fault: "stop-before-close"})
 			out = append(out, blockCase{N: n, Relevant: rel, Fault: "store"})
 			for k := 1; k <= n; k++ {
 				out = append(out, blockCase{N: n, Relevant: rel, Fault: "confirm", FaultAt: k})
@@ -389,7 +411,7 @@ func c04Cases(tier string, seed int64) []blockCase {
 			for j := 0; j < 6; j++ {
 				cor := []string{"drop", "drop-count-kept", "add", "swap", "alter", "cut", "count+1", "count-1", "other-header", "duplicate-last", "other-block-complete"}[rng.Intn(11)]
 				out = append(out, blockCase{N: n, Relevant: rel, Corruption: cor, Pos: rng.Intn(n)})
-				f := []string{"process", "cancel", "stop", "confirm", "store", "coinbase"}[rng.Intn(6)]
+				f := []string{"process", "cancel", "stop", "confirm", "store", "coinbase", "cancel-before-close", "stop-before-close"}[rng.Intn(8)]
 				out = append(out, blockCase{N: n, Relevant: rel, Fault: f, FaultAt: 1 + rng.Intn(n), Pos: rng.Intn(n)})
 			}
 		}
